@@ -54,7 +54,11 @@ func FlushInterval(interval time.Duration) LoggerOption {
 }
 
 func NewLogger(w io.Writer, label string, opts ...LoggerOption) (Logger, error) {
-	zapl, err := zap.NewProduction()
+	// every error is a record of its own: the production preset samples repeated
+	// messages (100 per second, then every 100th), which would drop error records
+	conf := zap.NewProductionConfig()
+	conf.Sampling = nil
+	zapl, err := conf.Build()
 	if err != nil {
 		return nil, err
 	}
